@@ -103,6 +103,16 @@ def real_main(in_path, out_path):
                 r["detail"] = "the real build did not return: " + r["detail"]
         except BaseException as ex:  # noqa: BLE001
             r = dict(reproduced=None, detail="replay crashed: " + repr(ex)[:300])
+            # the counterexample says "the code under test raises <Type> in <function>": the same exception type coming out of the
+            # repository's own code during the replay IS the reproduction
+            ob = str(case.get("_obligation", "")) if isinstance(case, dict) else ""
+            if ob.startswith("no-exception:") and ob.split(":", 1)[1].split("@")[0] == type(ex).__name__:
+                tb, inside = ex.__traceback__, False
+                while tb is not None:
+                    inside = inside or os.path.realpath(tb.tb_frame.f_code.co_filename).startswith(os.path.realpath(os.path.join(REPO, "pygamma_agreement")))
+                    tb = tb.tb_next
+                if inside:
+                    r = dict(reproduced=True, detail="real build raised " + repr(ex)[:300])
         out["replays"].append(r)
     if job.get("tv"):
         try:
